@@ -72,3 +72,41 @@ _c("remove_last_entry",
             ("returns-the-current-beat", "result == self.current_beat")],
    raises={"IndexError": "len(self.bar) == 0"},
    modifies=["param:self"], battery="bars_filled")
+
+# lifting to a bar: the operation reaches the container of every sounding entry exactly once, in order; rests are skipped
+NC = "mingus.containers.note_container.NoteContainer."
+CLASSES["LiftBar"] = {"class": "mingus.containers.bar.Bar", "fields": {"bar": "list[any]"}}
+CLASSES["NoteContainer"] = {"class": "mingus.containers.note_container.NoteContainer", "fields": {"notes": "[Note]"}}
+
+
+def _lift_shapes():
+    import itertools
+    kinds = ["[real,real,None]", "[real,real,NoteContainer]"]
+    out = [[]]
+    for n in (1, 2, 3):
+        out += [list(c) for c in itertools.product(kinds, repeat=n)]
+    return out
+
+
+_LIFT_SPLIT = [{"field_types": {"self.bar": "[" + ",".join(sh) + "]"}} for sh in _lift_shapes()]
+_NREQ = "all([e[2] is None or all([canon(n.name) and abs(net(n.name)) <= 4 for n in e[2].notes]) for e in self.bar])"
+from contracts.cont_note import _SIZE as _BSIZE  # noqa: E402
+_c("transpose",
+   params={"self": "LiftBar", "interval": "str", "up": "bool"},
+   requires=[("names-up-to-double-accidentals", _NREQ),
+             ("shorthand-up-to-two-accidentals",
+              "is_interval_shorthand(interval) and len(interval) <= 3 and "
+              "(cnt_sharp(interval, 0, len(interval) - 1) == 0 or cnt_flat(interval, 0, len(interval) - 1) == 0)"),
+             ("size-0-to-11", "0 <= %s and %s <= 11" % (_BSIZE, _BSIZE))],
+   returns="None",
+   emits="[('transpose', c, interval, up) for c in container_entries(self.bar)]",
+   callee_events={NC + "transpose": {"name": "transpose", "with_receiver": True}},
+   split=_LIFT_SPLIT, split_is_domain=True, modifies=["param:self"], properties=["C11"], battery="bar_lift_tr",
+   notes="domain: bars of 0..3 entries (rest / container), event view over the proved container operation")
+for _nm in ("augment", "diminish"):
+    _c(_nm, params={"self": "LiftBar"},
+       requires=[("valid-names", "all([e[2] is None or all([is_name(n.name) for n in e[2].notes]) for e in self.bar])")],
+       returns="None",
+       emits="[(%r, c) for c in container_entries(self.bar)]" % _nm,
+       callee_events={NC + _nm: {"name": _nm, "with_receiver": True}},
+       split=_LIFT_SPLIT, split_is_domain=True, modifies=["param:self"], properties=["C11"], battery="bar_lift")
